@@ -39,12 +39,14 @@ func hBitK(name string, lo, hi uint64) uint64 {
 //vf:unwind 300
 //vf:shards 16
 func VfC18_FlagSets_DIFlag() {
-	f1 := hBitK("k1", uint64(enum.DIFlagFirst), uint64(enum.DIFlagLast))
+	// every declared member above the accessibility field, whatever the
+	// library's own First/Last bounds say
+	f1 := hBitK("k1", 4, 1<<31)
 	acc := uint64(vfByte("acc"))
 	vfAssume(acc <= 3)
 	// only declared members (undefined bits have no keyword)
 	vfAssume(!strings.HasPrefix(enum.DIFlag(f1).String(), "DIFlag("))
-	f2 := hBit("f2", uint64(enum.DIFlagFirst), uint64(enum.DIFlagLast))
+	f2 := hBit("f2", 4, 1<<31)
 	vfAssume(!strings.HasPrefix(enum.DIFlag(f2).String(), "DIFlag("))
 	flags := enum.DIFlag(f1 | f2 | acc)
 	md := &metadata.DIBasicType{MetadataID: 0, Name: "x", Flags: flags}
@@ -62,8 +64,9 @@ func VfC18_FlagSets_DIFlag() {
 //vf:unwind 300
 //vf:shards 8
 func VfC18_FlagSets_DISPFlag() {
-	f1 := hBitK("k1", uint64(enum.DISPFlagFirst), uint64(enum.DISPFlagLast))
-	f2 := hBit("f2", uint64(enum.DISPFlagFirst), uint64(enum.DISPFlagLast))
+	// every declared member, whatever the library's own First/Last bounds say
+	f1 := hBitK("k1", 1, 1<<31)
+	f2 := hBit("f2", 1, 1<<31)
 	vfAssume(!strings.HasPrefix(enum.DISPFlag(f1).String(), "DISPFlag("))
 	vfAssume(!strings.HasPrefix(enum.DISPFlag(f2).String(), "DISPFlag("))
 	flags := enum.DISPFlag(f1 | f2)
@@ -82,8 +85,11 @@ func VfC18_FlagSets_DISPFlag() {
 //vf:unwind 300
 //vf:shards 4
 func VfC18_FlagSets_AllocKind() {
-	f1 := hBitK("k1", uint64(enum.AllocKindFirst), uint64(enum.AllocKindLast))
-	f2 := hBit("f2", uint64(enum.AllocKindFirst), uint64(enum.AllocKindLast))
+	f1 := hBitK("k1", 1, 1<<31)
+	f2 := hBit("f2", 1, 1<<31)
+	// only declared members
+	vfAssume(!strings.HasPrefix(enum.AllocKind(f1).String(), "AllocKind("))
+	vfAssume(!strings.HasPrefix(enum.AllocKind(f2).String(), "AllocKind("))
 	kind := enum.AllocKind(f1 | f2)
 	mod := ir.NewModule()
 	f := mod.NewFunc("f", types.Void)
@@ -107,4 +113,56 @@ func VfC18_FlagSets_AllocKind() {
 			vfAssert("C18.AllocKind.set.roundtrip", back == kind)
 		}
 	}
+}
+
+// VfC18_FlagFamilies: a DIFlag set and a DISPFlag set with the *same numeric
+// value* printed in one module, in both orders: each prints with the keywords
+// of its own family and reads back as itself (the two families share bit
+// positions; whatever one printer keeps must not leak into the other).
+//
+//vf:unwind 300
+//vf:shards 12
+func VfC18_FlagFamilies() {
+	k := vfChoice("bit", 12)
+	order := vfChoice("order", 2)
+	v := uint64(1) << uint(k)
+	fa, fb := enum.DIFlag(v), enum.DISPFlag(v)
+	if strings.HasPrefix(fa.String(), "DIFlag(") || strings.HasPrefix(fb.String(), "DISPFlag(") {
+		vfCut("not a declared member of both families")
+	}
+	// two-member sets with the same numeric value where both second bits are declared too
+	v2 := hBit("second", 1, 1<<11)
+	if !strings.HasPrefix(enum.DIFlag(v2).String(), "DIFlag(") && !strings.HasPrefix(enum.DISPFlag(v2).String(), "DISPFlag(") && v2 > 3 {
+		if vfBool("two-members") {
+			fa, fb = enum.DIFlag(v|v2), enum.DISPFlag(v|v2)
+		}
+	}
+	bt := &metadata.DIBasicType{MetadataID: 0, Name: "x", Flags: fa}
+	sp := &metadata.DISubprogram{MetadataID: 1, Name: "f", SPFlags: fb, Distinct: true}
+	var src string
+	if order == 0 {
+		src = bt.Ident() + " = " + bt.LLString() + "\n" + sp.Ident() + " = " + sp.LLString() + "\n"
+	} else {
+		sp.MetadataID, bt.MetadataID = 0, 1
+		src = sp.Ident() + " = " + sp.LLString() + "\n" + bt.Ident() + " = " + bt.LLString() + "\n"
+	}
+	m, err := ParseString("t.ll", src)
+	vfReach("C18.flags.families")
+	vfObserveStr("src", src)
+	vfAssert("C18.families.accepted", err == nil)
+	if err != nil {
+		return
+	}
+	var gotA enum.DIFlag
+	var gotB enum.DISPFlag
+	for _, d := range m.MetadataDefs {
+		switch x := d.(type) {
+		case *metadata.DIBasicType:
+			gotA = x.Flags
+		case *metadata.DISubprogram:
+			gotB = x.SPFlags
+		}
+	}
+	vfAssert("C18.families.diflag-roundtrip", gotA == fa)
+	vfAssert("C18.families.dispflag-roundtrip", gotB == fb)
 }
